@@ -362,8 +362,8 @@ func main() {
 							continue
 						}
 						bb := b
-						if len(ic.Gaps) >= 3 {
-							bb = b - 1 // three-message timelines: one deviation less
+						if th && len(ic.Gaps) >= 2 {
+							bb = b - 1 // thorough: three deviations for the short timelines, two for the longer ones
 						}
 						c.Explore(buildScenario(ic, bb), ic)
 					}
